@@ -63,16 +63,16 @@ class budget:
 
 PATHS = ('/a/b.py', 'C:\\x y\\\u00e9.py', '<string>', '<stdin>')
 LINES = (1, 1234)
-FUNCS = ('f', '<module>', '<lambda>', 'C.m')
+FUNCS = ('f', '<module>', '<lambda>', 'C.m', '<generic parameters of A>')      # the last: a real 3.12 name with spaces
 SOURCES = ('', 'x = 1', 'raise E("a: b")', '    indented()')     # as found in the file; '' = not available
 EXC_TYPES = ('ValueError', 'pkg.mod.Custom', 'KeyboardInterrupt')
 MESSAGES = ('', 'msg', 'a: b', 'line1\nline2', 'x\n\ny', ' lead', 'm\n  File "x", line 1, in y')
 MARKERS = ('    ^^^^^', '      ~~~~^^^')
 
-FRAME_MENU = tuple(itertools.product(PATHS, LINES, FUNCS, SOURCES))        # 128 frame variants
+FRAME_MENU = tuple(itertools.product(PATHS, LINES, FUNCS, SOURCES))        # 160 frame variants
 # reduced menu for the longest texts of the quick tier: every path, function, line and source kind occurs,
 # every source kind with two different (path, function) surroundings
-SMALL_MENU = tuple((PATHS[(i + j) % 4], LINES[(i + j) % 2], FUNCS[(i + 2 * j) % 4], SOURCES[i])
+SMALL_MENU = tuple((PATHS[(i + j) % 4], LINES[(i + j) % 2], FUNCS[(i + 2 * j) % len(FUNCS)], SOURCES[i])
                    for j in range(2) for i in range(4))
 # medium menu for the thorough tier's 3-frame texts: paths x functions x sources fully crossed (64 entries);
 # only the line number (crossed with everything else in the 0-2 frame texts) follows from the other indices
@@ -593,6 +593,55 @@ def check_program(root, chain, exc, contextual=True):
     return out, info
 
 
+def check_reloaded_program(root, chain, exc):
+    """A two-step history: the module is rendered once by tbutils, then edited on disk (all lines move) and executed
+    again.  tbutils renders the second exception *before* the traceback module is asked (which refreshes linecache as a
+    side effect), and must already show the new source lines."""
+    from boltons import tbutils
+    sys.dont_write_bytecode = True
+    name, path, mod = load_program(root, chain, exc)
+    out = []
+    try:
+        e1 = mod.run()
+        tbutils.ExceptionInfo.from_exc_info(type(e1), e1, e1.__traceback__).get_formatted()
+        tb_frames(tbutils.TracebackInfo.from_traceback(e1.__traceback__))
+        del e1
+        with open(path, 'r', encoding='utf-8') as f:
+            src = f.read()
+        with open(path, 'w', encoding='utf-8') as f:
+            f.write('# edited on disk\n_edited = True\n\n' + src)
+        st = os.stat(path)
+        os.utime(path, (st.st_atime, st.st_mtime + 5))
+        spec = importlib.util.spec_from_file_location(name, path)
+        mod2 = importlib.util.module_from_spec(spec)
+        sys.modules[name] = mod2
+        spec.loader.exec_module(mod2)
+        e2 = mod2.run()
+        got_frames = tb_frames(tbutils.TracebackInfo.from_traceback(e2.__traceback__))
+        got_full = tbutils.ExceptionInfo.from_exc_info(type(e2), e2, e2.__traceback__).get_formatted()
+        want = interpreter_view(e2)
+        if got_frames != want['frames']:
+            out.append(('C16|fn:TracebackInfo.from_traceback|frames:after-the-file-changed-on-disk', want['frames'][-2:],
+                        got_frames[-2:], ()))
+        if got_full != want['full']:
+            w, g = first_difference(want['full'], got_full)
+            out.append(('C16|fn:ExceptionInfo.get_formatted|tb_lines:after-the-file-changed-on-disk', w, g, ()))
+    finally:
+        unload_program(name, path)
+    return out
+
+
+def reloaded_shard(arg):
+    root, chains = arg
+    t = inputs.Tally()
+    for chain in chains:
+        case = {'part': 'programs-reloaded', 'chain': list(chain), 'exc': 'msg'}
+        t.count(nontrivial=True, sample=case)
+        for sig, exp, obs, tags in check_reloaded_program(root, chain, 'msg'):
+            t.bad(sig, case, exp, obs, tags=tags)
+    return t
+
+
 def program_chains(tier):
     """Chains in simplest-first order."""
     maxlen = 3 if tier == 'quick' else 4
@@ -643,6 +692,9 @@ def run(ctx):
         ctx_maxlen = 2 if ctx.quick() else 3
         inputs.run_shards(ctx, program_shard_fn(root, ctx_maxlen), contiguous(chains, 64), part='programs',
                           rule='at least one link between run() and the raising function')
+        rel = [c for c in chains if len(c) <= (1 if ctx.quick() else 2) and 'linecache' not in c and 'exec' not in c]
+        inputs.run_shards(ctx, reloaded_shard, [(root, b) for b in contiguous(rel, 16)], part='programs-reloaded',
+                          rule='module rendered once, edited on disk, executed and rendered again (tbutils first)')
     finally:
         shutil.rmtree(root, ignore_errors=True)
     cov = ctx.coverage
@@ -686,6 +738,9 @@ def replay(ctx, data):
         return msgs
     root = core.scratch_dir('c16-replay')
     try:
+        if case['part'] == 'programs-reloaded':
+            res = check_reloaded_program(root, tuple(case['chain']), case['exc'])
+            return ['%s expected=%r observed=%r' % (sig, exp, obs) for sig, exp, obs, tags in res if only in (None, sig)]
         res, _ = check_program(root, tuple(case['chain']), case['exc'], case.get('contextual', True))
     finally:
         shutil.rmtree(root, ignore_errors=True)
